@@ -38,28 +38,33 @@ var c15names = []string{"a", "b", "c"}
 
 func (m c15proj) build() *types.Project {
 	p := &types.Project{Name: "p", Services: types.Services{}, DisabledServices: types.Services{},
+		// every kind of resource uses the same names, so that a reference to one kind never keeps another kind alive
 		Networks: types.Networks{"shared": {Name: "p_shared"}, "unused": {Name: "p_unused"}},
-		Volumes:  types.Volumes{"unusedvol": {Name: "p_unusedvol"}},
-		Secrets:  types.Secrets{"sec0": {Name: "sec0", File: "/s0"}, "bsec": {Name: "bsec", File: "/bs"}, "unusedsec": {Name: "u", File: "/u"}},
-		Configs:  types.Configs{"cfg": {Name: "cfg", File: "/c"}, "unusedcfg": {Name: "uc", File: "/uc"}},
+		Volumes:  types.Volumes{"shared": {Name: "p_shared"}, "unused": {Name: "p_unused"}},
+		Secrets:  types.Secrets{"shared": {Name: "shared", File: "/s"}, "unused": {Name: "u", File: "/u"}},
+		Configs:  types.Configs{"shared": {Name: "shared", File: "/c"}, "unused": {Name: "uc", File: "/uc"}},
+	}
+	for _, nm := range c15names {
+		p.Secrets["r"+nm] = types.SecretConfig{Name: "s" + nm, File: "/s" + nm}
+		p.Configs["r"+nm] = types.ConfigObjConfig{Name: "c" + nm, File: "/c" + nm}
 	}
 	for i := 0; i < m.n; i++ {
 		nm := c15names[i]
 		s := types.ServiceConfig{Name: nm, Image: "img", Profiles: append([]string{}, m.prof[i]...),
-			Networks: map[string]*types.ServiceNetworkConfig{"n" + nm: nil},
-			Volumes:  []types.ServiceVolumeConfig{{Type: "volume", Source: "v" + nm, Target: "/v"}, {Type: "bind", Source: "/host", Target: "/h"}},
+			Networks: map[string]*types.ServiceNetworkConfig{"r" + nm: nil},
+			Volumes:  []types.ServiceVolumeConfig{{Type: "volume", Source: "r" + nm, Target: "/v"}, {Type: "bind", Source: "/host", Target: "/h"}},
 		}
-		p.Networks["n"+nm] = types.NetworkConfig{Name: "p_n" + nm}
-		p.Volumes["v"+nm] = types.VolumeConfig{Name: "p_v" + nm}
+		p.Networks["r"+nm] = types.NetworkConfig{Name: "p_n" + nm}
+		p.Volumes["r"+nm] = types.VolumeConfig{Name: "p_v" + nm}
 		switch i {
 		case 0:
 			s.Networks["shared"] = nil
-			s.Secrets = []types.ServiceSecretConfig{{Source: "sec0"}}
+			s.Secrets = []types.ServiceSecretConfig{{Source: "rb"}} // named like b's network and volume; config rb stays unreferenced
 		case 1:
 			s.Networks["shared"] = nil
-			s.Build = &types.BuildConfig{Context: ".", Secrets: []types.ServiceSecretConfig{{Source: "bsec"}}}
+			s.Build = &types.BuildConfig{Context: ".", Secrets: []types.ServiceSecretConfig{{Source: "rc"}}}
 		case 2:
-			s.Configs = []types.ServiceConfigObjConfig{{Source: "cfg"}}
+			s.Configs = []types.ServiceConfigObjConfig{{Source: "ra"}} // secret ra stays unreferenced
 		}
 		for j := 0; j < m.n; j++ {
 			if k := m.edges[[2]int{i, j}]; k != 0 {
